@@ -71,6 +71,22 @@ Definition vec_slice_from {A} (l : list A) (lo : N) : gres (list A) :=
 (** [v[lo..].as_ptr()]: a pointer = offset into the (one) buffer, [None] = null *)
 Definition vec_ptr_at {A} (l : list A) (lo : N) : gres (option N) :=
   if lenN l <? lo then GPanic P_slice else GOk (Some lo).
+(** [ptr::copy_nonoverlapping(src, dst, n)] into a buffer: the destination must be a non-null offset with the whole
+    range inside the buffer (anything else is undefined behaviour in Rust: a panic site here, so that a reachable
+    one breaks every equivalence); the buffer keeps its length. *)
+Definition P_ub : N := 109.
+Fixpoint vec_overwrite (b : list N) (off : N) (s : list N) : list N :=
+  match b with
+  | [] => []
+  | x :: t =>
+      if off =? 0 then match s with [] => b | y :: s' => y :: vec_overwrite t 0 s' end
+      else x :: vec_overwrite t (off - 1) s
+  end.
+Definition vec_write (b : list N) (dst : option N) (data : list N) : gres (list N) :=
+  match dst with
+  | Some off => if off + lenN data <=? lenN b then GOk (vec_overwrite b off data) else GPanic P_ub
+  | None => GPanic P_ub
+  end.
 Definition ptr_add (p : option N) (n : N) : option N :=
   match p with Some o => Some (o + n) | None => None end.
 Definition ptr_eqb (p q : option N) : bool :=
